@@ -4,6 +4,8 @@ import (
 	"bytes"
 	"encoding/hex"
 	"fmt"
+	"github.com/bronlabs/bron-crypto/pkg/proofs/sigma/compiler/fischlin"
+	"github.com/bronlabs/bron-crypto/pkg/proofs/sigma/compiler/randfischlin"
 
 	"github.com/bronlabs/bron-crypto/pkg/base/algebra"
 	"github.com/bronlabs/bron-crypto/pkg/base/algebra/constructions"
@@ -83,7 +85,18 @@ func sigmaCore[X sigma.Statement, W sigma.Witness, A sigma.Commitment, S sigma.S
 // rejected under another session, another transcript state, another prover label, another statement.
 func fsBinding[X sigma.Statement, W sigma.Witness, A sigma.Commitment, S sigma.State, Z sigma.Response](
 	env *SymEnv, pfx string, p sigma.Protocol[X, W, A, S, Z], x X, w W, other X) {
-	ni, err := compiler.Compile(fiatshamir.Name, p, env.Reader(pfx+"/compiler"))
+	niBinding(env, pfx, fiatshamir.Name, p, x, w, other)
+}
+
+// niBinding is fsBinding for any of the non-interactive compilers (Fiat–Shamir, Fischlin,
+// randomised Fischlin): the compiled proof verifies in the same session context and is rejected
+// under another session, transcript state, prover label or statement, and when truncated / extended.
+func niBinding[X sigma.Statement, W sigma.Witness, A sigma.Commitment, S sigma.State, Z sigma.Response](
+	env *SymEnv, pfx string, cname compiler.Name, p sigma.Protocol[X, W, A, S, Z], x X, w W, other X) {
+	if cname != fiatshamir.Name {
+		pfx = pfx + "[" + string(cname) + "]"
+	}
+	ni, err := compiler.Compile(cname, p, env.Reader(pfx+"/compiler"))
 	if !env.Check(pfx+"/compile-ok", err == nil, fmt.Sprint(err)) {
 		return
 	}
@@ -473,5 +486,17 @@ func C08Cases(tier string, seed int64) []Case {
 		c08Elcomop, "C08.elcomop/done"))
 	cases = append(cases, mk("C08/elgamal/elog", map[string]any{"protocol": "elog: elcomop ∧ Schnorr (committed element is g^y and Y = h^y)", "key, y, λ, h, offsets": "symbolic"},
 		c08Elog, "C08.elog/done"))
+	for _, cn := range []compiler.Name{fischlin.Name, randfischlin.Name} {
+		// (k = 5..8 gives the Fischlin parameter t = 16, a multiple of 8)
+		ks := []int{1, 2, 5}
+		if tier == "thorough" {
+			ks = []int{1, 2, 3, 4, 5, 8, 9}
+		}
+		for _, k := range ks {
+			c, kk := cn, k
+			cases = append(cases, mk(fmt.Sprintf("C08/compiler/%s/k=%d", cn, k), map[string]any{"compiler": string(cn), "protocol": "Schnorr (k=1) / batch Schnorr", "k": k, "witnesses": "symbolic"},
+				func(e *SymEnv) { c08Compilers(e, c, kk) }, "compiled-done"))
+		}
+	}
 	return cases
 }
